@@ -10,7 +10,7 @@ package statf
 
 //@ func (*StatMicMsgHead).ResetDefault
 //@   requires st != nil
-//@   modifies *st
+//@   pure
 //@   safety [C05]
 //
 //@ func (*StatMicMsgHead).ReadFrom
@@ -21,6 +21,56 @@ package statf
 //@   allocates
 //@   ensures [C05] readBuf.buf.i >= p0
 //@   ensures [C05] validR(readBuf)
+//@   let src = readBuf.buf.src
+//@   let d0 = readBuf.depth
+//@   let q0 = readBuf.buf.i
+//@   let k1 = decStrK(src, q0, 0, true, d0)
+//@   let q1 = (k1 == 0 ? decStrP(src, q0, 0, d0) : seekP(src, q0, 0, d0))
+//@   let ok1 = (k1 == 0 || (k1 == 1 && (seekK(src, q0, 0, d0) == 2 || (seekK(src, q0, 0, d0) == 1 && seekCanon(src, q0, 0, d0)))))
+//@   let k2 = decStrK(src, q1, 1, true, d0)
+//@   let q2 = (k2 == 0 ? decStrP(src, q1, 1, d0) : seekP(src, q1, 1, d0))
+//@   let ok2 = ok1 && (k2 == 0 || (k2 == 1 && (seekK(src, q1, 1, d0) == 2 || (seekK(src, q1, 1, d0) == 1 && seekCanon(src, q1, 1, d0)))))
+//@   let k3 = decStrK(src, q2, 2, true, d0)
+//@   let q3 = (k3 == 0 ? decStrP(src, q2, 2, d0) : seekP(src, q2, 2, d0))
+//@   let ok3 = ok2 && (k3 == 0 || (k3 == 1 && (seekK(src, q2, 2, d0) == 2 || (seekK(src, q2, 2, d0) == 1 && seekCanon(src, q2, 2, d0)))))
+//@   let k4 = decStrK(src, q3, 3, true, d0)
+//@   let q4 = (k4 == 0 ? decStrP(src, q3, 3, d0) : seekP(src, q3, 3, d0))
+//@   let ok4 = ok3 && (k4 == 0 || (k4 == 1 && (seekK(src, q3, 3, d0) == 2 || (seekK(src, q3, 3, d0) == 1 && seekCanon(src, q3, 3, d0)))))
+//@   let k5 = decStrK(src, q4, 4, true, d0)
+//@   let q5 = (k5 == 0 ? decStrP(src, q4, 4, d0) : seekP(src, q4, 4, d0))
+//@   let ok5 = ok4 && (k5 == 0 || (k5 == 1 && (seekK(src, q4, 4, d0) == 2 || (seekK(src, q4, 4, d0) == 1 && seekCanon(src, q4, 4, d0)))))
+//@   let k6 = decIntK(src, q5, 5, true, 4, d0)
+//@   let q6 = (k6 == 0 ? decIntP(src, q5, 5, d0) : seekP(src, q5, 5, d0))
+//@   let ok6 = ok5 && (k6 == 0 || (k6 == 1 && (seekK(src, q5, 5, d0) == 2 || (seekK(src, q5, 5, d0) == 1 && seekCanon(src, q5, 5, d0)))))
+//@   let k7 = decIntK(src, q6, 6, true, 4, d0)
+//@   let q7 = (k7 == 0 ? decIntP(src, q6, 6, d0) : seekP(src, q6, 6, d0))
+//@   let ok7 = ok6 && (k7 == 0 || (k7 == 1 && (seekK(src, q6, 6, d0) == 2 || (seekK(src, q6, 6, d0) == 1 && seekCanon(src, q6, 6, d0)))))
+//@   let k8 = decStrK(src, q7, 7, false, d0)
+//@   let q8 = (k8 == 0 ? decStrP(src, q7, 7, d0) : seekP(src, q7, 7, d0))
+//@   let ok8 = ok7 && (k8 == 0 || (k8 == 1 && (seekK(src, q7, 7, d0) == 2 || (seekK(src, q7, 7, d0) == 1 && seekCanon(src, q7, 7, d0)))))
+//@   let k9 = decStrK(src, q8, 8, false, d0)
+//@   let q9 = (k9 == 0 ? decStrP(src, q8, 8, d0) : seekP(src, q8, 8, d0))
+//@   let ok9 = ok8 && (k9 == 0 || (k9 == 1 && (seekK(src, q8, 8, d0) == 2 || (seekK(src, q8, 8, d0) == 1 && seekCanon(src, q8, 8, d0)))))
+//@   let k10 = decStrK(src, q9, 9, false, d0)
+//@   let q10 = (k10 == 0 ? decStrP(src, q9, 9, d0) : seekP(src, q9, 9, d0))
+//@   let ok10 = ok9 && (k10 == 0 || (k10 == 1 && (seekK(src, q9, 9, d0) == 2 || (seekK(src, q9, 9, d0) == 1 && seekCanon(src, q9, 9, d0)))))
+//@   let k11 = decStrK(src, q10, 10, false, d0)
+//@   let q11 = (k11 == 0 ? decStrP(src, q10, 10, d0) : seekP(src, q10, 10, d0))
+//@   let ok11 = ok10 && (k11 == 0 || (k11 == 1 && (seekK(src, q10, 10, d0) == 2 || (seekK(src, q10, 10, d0) == 1 && seekCanon(src, q10, 10, d0)))))
+//@   opaque [C04] *
+//@   perreturn
+//@   ensures [C04] (ok1 && err == nil) ==> st.MasterName == (k1 == 0 ? decStrV(src, q0, 0, d0) : old(st.MasterName))
+//@   ensures [C04] (ok2 && err == nil) ==> st.SlaveName == (k2 == 0 ? decStrV(src, q1, 1, d0) : old(st.SlaveName))
+//@   ensures [C04] (ok3 && err == nil) ==> st.InterfaceName == (k3 == 0 ? decStrV(src, q2, 2, d0) : old(st.InterfaceName))
+//@   ensures [C04] (ok4 && err == nil) ==> st.MasterIp == (k4 == 0 ? decStrV(src, q3, 3, d0) : old(st.MasterIp))
+//@   ensures [C04] (ok5 && err == nil) ==> st.SlaveIp == (k5 == 0 ? decStrV(src, q4, 4, d0) : old(st.SlaveIp))
+//@   ensures [C04] (ok6 && err == nil) ==> st.SlavePort == (k6 == 0 ? decIntV(src, q5, 5, d0) : old(st.SlavePort))
+//@   ensures [C04] (ok7 && err == nil) ==> st.ReturnValue == (k7 == 0 ? decIntV(src, q6, 6, d0) : old(st.ReturnValue))
+//@   ensures [C04] (ok8 && err == nil) ==> st.SlaveSetName == (k8 == 0 ? decStrV(src, q7, 7, d0) : old(st.SlaveSetName))
+//@   ensures [C04] (ok9 && err == nil) ==> st.SlaveSetArea == (k9 == 0 ? decStrV(src, q8, 8, d0) : old(st.SlaveSetArea))
+//@   ensures [C04] (ok10 && err == nil) ==> st.SlaveSetID == (k10 == 0 ? decStrV(src, q9, 9, d0) : old(st.SlaveSetID))
+//@   ensures [C04] (ok11 && err == nil) ==> st.TarsVersion == (k11 == 0 ? decStrV(src, q10, 10, d0) : old(st.TarsVersion))
+//@   ensures [C04] ok11 ==> (err == nil && readBuf.buf.i == q11)
 //@   safety [C05]
 //
 //@ func (*StatMicMsgHead).ReadBlock
@@ -82,7 +132,7 @@ package statf
 //
 //@ func (*StatSampleMsg).ResetDefault
 //@   requires st != nil
-//@   modifies *st
+//@   pure
 //@   safety [C05]
 //
 //@ func (*StatSampleMsg).ReadFrom
@@ -93,6 +143,48 @@ package statf
 //@   allocates
 //@   ensures [C05] readBuf.buf.i >= p0
 //@   ensures [C05] validR(readBuf)
+//@   let src = readBuf.buf.src
+//@   let d0 = readBuf.depth
+//@   let q0 = readBuf.buf.i
+//@   let k1 = decStrK(src, q0, 0, true, d0)
+//@   let q1 = (k1 == 0 ? decStrP(src, q0, 0, d0) : seekP(src, q0, 0, d0))
+//@   let ok1 = (k1 == 0 || (k1 == 1 && (seekK(src, q0, 0, d0) == 2 || (seekK(src, q0, 0, d0) == 1 && seekCanon(src, q0, 0, d0)))))
+//@   let k2 = decStrK(src, q1, 1, true, d0)
+//@   let q2 = (k2 == 0 ? decStrP(src, q1, 1, d0) : seekP(src, q1, 1, d0))
+//@   let ok2 = ok1 && (k2 == 0 || (k2 == 1 && (seekK(src, q1, 1, d0) == 2 || (seekK(src, q1, 1, d0) == 1 && seekCanon(src, q1, 1, d0)))))
+//@   let k3 = decStrK(src, q2, 2, true, d0)
+//@   let q3 = (k3 == 0 ? decStrP(src, q2, 2, d0) : seekP(src, q2, 2, d0))
+//@   let ok3 = ok2 && (k3 == 0 || (k3 == 1 && (seekK(src, q2, 2, d0) == 2 || (seekK(src, q2, 2, d0) == 1 && seekCanon(src, q2, 2, d0)))))
+//@   let k4 = decStrK(src, q3, 3, true, d0)
+//@   let q4 = (k4 == 0 ? decStrP(src, q3, 3, d0) : seekP(src, q3, 3, d0))
+//@   let ok4 = ok3 && (k4 == 0 || (k4 == 1 && (seekK(src, q3, 3, d0) == 2 || (seekK(src, q3, 3, d0) == 1 && seekCanon(src, q3, 3, d0)))))
+//@   let k5 = decStrK(src, q4, 4, true, d0)
+//@   let q5 = (k5 == 0 ? decStrP(src, q4, 4, d0) : seekP(src, q4, 4, d0))
+//@   let ok5 = ok4 && (k5 == 0 || (k5 == 1 && (seekK(src, q4, 4, d0) == 2 || (seekK(src, q4, 4, d0) == 1 && seekCanon(src, q4, 4, d0)))))
+//@   let k6 = decStrK(src, q5, 5, true, d0)
+//@   let q6 = (k6 == 0 ? decStrP(src, q5, 5, d0) : seekP(src, q5, 5, d0))
+//@   let ok6 = ok5 && (k6 == 0 || (k6 == 1 && (seekK(src, q5, 5, d0) == 2 || (seekK(src, q5, 5, d0) == 1 && seekCanon(src, q5, 5, d0)))))
+//@   let k7 = decIntK(src, q6, 6, true, 4, d0)
+//@   let q7 = (k7 == 0 ? decIntP(src, q6, 6, d0) : seekP(src, q6, 6, d0))
+//@   let ok7 = ok6 && (k7 == 0 || (k7 == 1 && (seekK(src, q6, 6, d0) == 2 || (seekK(src, q6, 6, d0) == 1 && seekCanon(src, q6, 6, d0)))))
+//@   let k8 = decIntK(src, q7, 7, true, 4, d0)
+//@   let q8 = (k8 == 0 ? decIntP(src, q7, 7, d0) : seekP(src, q7, 7, d0))
+//@   let ok8 = ok7 && (k8 == 0 || (k8 == 1 && (seekK(src, q7, 7, d0) == 2 || (seekK(src, q7, 7, d0) == 1 && seekCanon(src, q7, 7, d0)))))
+//@   let k9 = decIntK(src, q8, 8, true, 4, d0)
+//@   let q9 = (k9 == 0 ? decIntP(src, q8, 8, d0) : seekP(src, q8, 8, d0))
+//@   let ok9 = ok8 && (k9 == 0 || (k9 == 1 && (seekK(src, q8, 8, d0) == 2 || (seekK(src, q8, 8, d0) == 1 && seekCanon(src, q8, 8, d0)))))
+//@   opaque [C04] *
+//@   perreturn
+//@   ensures [C04] (ok1 && err == nil) ==> st.Unid == (k1 == 0 ? decStrV(src, q0, 0, d0) : old(st.Unid))
+//@   ensures [C04] (ok2 && err == nil) ==> st.MasterName == (k2 == 0 ? decStrV(src, q1, 1, d0) : old(st.MasterName))
+//@   ensures [C04] (ok3 && err == nil) ==> st.SlaveName == (k3 == 0 ? decStrV(src, q2, 2, d0) : old(st.SlaveName))
+//@   ensures [C04] (ok4 && err == nil) ==> st.InterfaceName == (k4 == 0 ? decStrV(src, q3, 3, d0) : old(st.InterfaceName))
+//@   ensures [C04] (ok5 && err == nil) ==> st.MasterIp == (k5 == 0 ? decStrV(src, q4, 4, d0) : old(st.MasterIp))
+//@   ensures [C04] (ok6 && err == nil) ==> st.SlaveIp == (k6 == 0 ? decStrV(src, q5, 5, d0) : old(st.SlaveIp))
+//@   ensures [C04] (ok7 && err == nil) ==> st.Depth == (k7 == 0 ? decIntV(src, q6, 6, d0) : old(st.Depth))
+//@   ensures [C04] (ok8 && err == nil) ==> st.Width == (k8 == 0 ? decIntV(src, q7, 7, d0) : old(st.Width))
+//@   ensures [C04] (ok9 && err == nil) ==> st.ParentWidth == (k9 == 0 ? decIntV(src, q8, 8, d0) : old(st.ParentWidth))
+//@   ensures [C04] ok9 ==> (err == nil && readBuf.buf.i == q9)
 //@   safety [C05]
 //
 //@ func (*StatSampleMsg).ReadBlock
@@ -126,7 +218,7 @@ package statf
 //
 //@ func (*ProxyInfo).ResetDefault
 //@   requires st != nil
-//@   modifies *st
+//@   pure
 //@   safety [C05]
 //
 //@ func (*ProxyInfo).ReadFrom
@@ -137,6 +229,16 @@ package statf
 //@   allocates
 //@   ensures [C05] readBuf.buf.i >= p0
 //@   ensures [C05] validR(readBuf)
+//@   let src = readBuf.buf.src
+//@   let d0 = readBuf.depth
+//@   let q0 = readBuf.buf.i
+//@   let k1 = decIntK(src, q0, 0, true, 1, d0)
+//@   let q1 = (k1 == 0 ? decIntP(src, q0, 0, d0) : seekP(src, q0, 0, d0))
+//@   let ok1 = (k1 == 0 || (k1 == 1 && (seekK(src, q0, 0, d0) == 2 || (seekK(src, q0, 0, d0) == 1 && seekCanon(src, q0, 0, d0)))))
+//@   opaque [C04] *
+//@   perreturn
+//@   ensures [C04] (ok1 && err == nil) ==> st.BFromClient == (k1 == 0 ? (decIntV(src, q0, 0, d0) != 0) : old(st.BFromClient))
+//@   ensures [C04] ok1 ==> (err == nil && readBuf.buf.i == q1)
 //@   safety [C05]
 //
 //@ func (*ProxyInfo).ReadBlock
